@@ -16,6 +16,7 @@ let entries : (String.t * (byte list -> byte list)) list = [
   "example_model", example_model_line;
   "enum_model", enum_model_line;
   "schema_scan_model", schema_scan_model_line;
+  "loader_model", loader_model_line;
   "rules_model", rules_model_line;
   "rules_spec", rules_spec_line;
   "rules_spec_raw", rules_spec_raw_line;
